@@ -536,12 +536,43 @@ func quoteParam(s string) string {
 
 func RenderModel(m *Model, l *Layout) string { return RenderTree(ModelTree(m), l) }
 
+// ExpLex is a lexeme the rendered text is known to contain (type code as in the scan op, byte extent).
+type ExpLex struct {
+	Ty   string
+	B, E int
+}
+
 func RenderTree(nodes []*DNode, l *Layout) string {
+	s, _ := RenderTreeLex(nodes, l)
+	return s
+}
+
+// RenderTreeLex renders the tree and returns the lexemes it was rendered from, byte for byte.
+func RenderTreeLex(nodes []*DNode, l *Layout) (string, []ExpLex) {
 	var b strings.Builder
+	r := &renderer{b: &b, l: l}
 	for i, n := range nodes {
-		renderNode(&b, n, 0, l, i == 0)
+		r.node(n, 0, i == 0)
 	}
-	return b.String()
+	r.closeText(b.Len())
+	return b.String(), r.lex
+}
+
+type renderer struct {
+	b         *strings.Builder
+	l         *Layout
+	lex       []ExpLex
+	openText  int // index into lex of a Text lexeme whose end is the byte before the next keyword / EOF; -1 if none
+	hasOpen   bool
+	afterBody bool
+}
+
+// closeText ends a pending implicit Description text at position `next` (start of the next keyword or ')' or EOF)
+func (r *renderer) closeText(next int) {
+	if r.hasOpen {
+		r.lex[r.openText].E = next - 1
+		r.hasOpen = false
+	}
 }
 
 func canExplicit(kw string) bool {
@@ -552,7 +583,8 @@ func canExplicit(kw string) bool {
 	return true
 }
 
-func renderNode(b *strings.Builder, n *DNode, depth int, l *Layout, first bool) {
+func (r *renderer) node(n *DNode, depth int, first bool) {
+	b, l := r.b, r.l
 	rng := l.rng
 	ind := strings.Repeat(" ", depth*l.Indent)
 	if !first {
@@ -561,7 +593,8 @@ func renderNode(b *strings.Builder, n *DNode, depth int, l *Layout, first bool) 
 				b.WriteString(l.NL)
 			}
 		}
-		if l.Comments > 0 && rng.Chance(1, 4) {
+		// no comment right after a schema/enum body: schema-core counts trailing comments into the body extent
+		if l.Comments > 0 && rng.Chance(1, 4) && !r.hasOpen && !r.afterBody {
 			if rng.Chance(1, 2) {
 				b.WriteString(ind + "# a comment" + l.NL)
 			} else {
@@ -569,20 +602,31 @@ func renderNode(b *strings.Builder, n *DNode, depth int, l *Layout, first bool) 
 			}
 		}
 	}
-	b.WriteString(ind + n.Keyword)
+	b.WriteString(ind)
+	r.closeText(b.Len())
+	r.afterBody = false
+	r.lex = append(r.lex, ExpLex{"K", b.Len(), b.Len() + len(n.Keyword) - 1})
+	b.WriteString(n.Keyword)
 	for _, p := range n.Params {
 		q := needsQuote(p) || l.QuoteParams == 2 || (l.QuoteParams == 1 && rng.Chance(1, 2))
+		txt := p
 		if q {
-			b.WriteString(" " + quoteParam(p))
-		} else {
-			b.WriteString(" " + p)
+			txt = quoteParam(p)
 		}
+		b.WriteString(" ")
+		r.lex = append(r.lex, ExpLex{"P", b.Len(), b.Len() + len(txt) - 1})
+		b.WriteString(txt)
 	}
 	if n.Ann != "" {
 		if l.BlockAnn {
-			b.WriteString(" /* " + n.Ann + " */")
+			b.WriteString(" /*")
+			r.lex = append(r.lex, ExpLex{"A", b.Len(), b.Len() + len(n.Ann) + 1}) // " ann " between the delimiters
+			b.WriteString(" " + n.Ann + " */")
 		} else {
-			b.WriteString(" // " + n.Ann)
+			b.WriteString(" //")
+			start := b.Len()
+			b.WriteString(" " + n.Ann)
+			r.lex = append(r.lex, ExpLex{"A", start, b.Len() - 1})
 		}
 	}
 	explicit := canExplicit(n.Keyword) && (n.Body != "" || len(n.Kids) > 0) &&
@@ -594,25 +638,71 @@ func renderNode(b *strings.Builder, n *DNode, depth int, l *Layout, first bool) 
 		b.WriteString("  ")
 	}
 	b.WriteString(l.NL)
-	if explicit {
-		b.WriteString(ind + "(" + l.NL)
-	}
-	if n.Body != "" {
+	textStart := b.Len() - len(l.NL) + 1 // the byte after the first newline byte of the header line
+	if n.BodyKind == "text" {
+		// Description: the parentheses delimit the text, they are part of the Text lexeme
+		if explicit {
+			b.WriteString(ind + "(" + l.NL)
+		}
 		bi := strings.Repeat(" ", (depth+1)*l.Indent)
-		lines := strings.Split(n.Body, "\n")
-		for _, ln := range lines {
+		for _, ln := range strings.Split(n.Body, "\n") {
 			if ln == "" {
 				b.WriteString(l.NL)
 			} else {
 				b.WriteString(bi + ln + l.NL)
 			}
 		}
-	}
-	for _, k := range n.Kids {
-		renderNode(b, k, depth+1, l, false)
+		if explicit {
+			b.WriteString(ind + ")")
+			r.lex = append(r.lex, ExpLex{"T", textStart, b.Len() - 1})
+			b.WriteString(l.NL)
+		} else {
+			r.lex = append(r.lex, ExpLex{"T", textStart, -1})
+			r.openText = len(r.lex) - 1
+			r.hasOpen = true
+		}
+		return
 	}
 	if explicit {
-		b.WriteString(ind + ")" + l.NL)
+		b.WriteString(ind)
+		r.lex = append(r.lex, ExpLex{"O", b.Len(), b.Len()})
+		b.WriteString("(" + l.NL)
+	}
+	if n.Body != "" {
+		bi := strings.Repeat(" ", (depth+1)*l.Indent)
+		lines := strings.Split(n.Body, "\n")
+		start, end := -1, -1
+		for _, ln := range lines {
+			if ln == "" {
+				b.WriteString(l.NL)
+			} else {
+				b.WriteString(bi)
+				if start < 0 {
+					start = b.Len() + (len(ln) - len(strings.TrimLeft(ln, " \t")))
+				}
+				b.WriteString(ln)
+				end = b.Len() - 1
+				b.WriteString(l.NL)
+			}
+		}
+		ty := "S"
+		switch n.BodyKind {
+		case "enum":
+			ty = "E"
+		case "regex":
+			ty = "T"
+		}
+		r.lex = append(r.lex, ExpLex{ty, start, end})
+		r.afterBody = ty != "T"
+	}
+	for _, k := range n.Kids {
+		r.node(k, depth+1, false)
+	}
+	if explicit {
+		b.WriteString(ind)
+		r.closeText(b.Len())
+		r.lex = append(r.lex, ExpLex{"C", b.Len(), b.Len()})
+		b.WriteString(")" + l.NL)
 	}
 }
 
